@@ -138,8 +138,10 @@ func (c13Stream) Generate(rng *rand.Rand, n int, thorough bool) []Case {
 		if rng.Intn(10) == 0 && idle == 0 && stop == 0 && overlap == 0 && blocked == 0 && linger == 0 && barrier == 0 {
 			hpanic = 1
 		}
-		cs = append(cs, Case{Line: fmt.Sprintf("c13 sessions=%d pre=%d before=%d after=%d post=%d pipelined=%d idle=%d barrier=%d stop=%d overlap=%d linger=%d big=%d viadefault=%d blocked=%d hpanic=%d", []int{1, 2, 4, 8}[rng.Intn(4)],
-			[]int{0, 0, 1, 3}[rng.Intn(4)], before, after, 1+rng.Intn(6), rng.Intn(2), idle, barrier, stop, overlap, linger, big, viadefault, blocked, hpanic), Kind: "starttls"})
+		cs = append(cs, Case{Line: fmt.Sprintf("c13 sessions=%d pre=%d before=%d after=%d post=%d pipelined=%d idle=%d barrier=%d stop=%d overlap=%d linger=%d big=%d viadefault=%d blocked=%d hpanic=%d silent=%d", []int{1, 2, 4, 8}[rng.Intn(4)],
+			[]int{0, 0, 1, 3}[rng.Intn(4)], before, after, 1+rng.Intn(6), rng.Intn(2), idle, barrier, stop, overlap, linger, big, viadefault, blocked, hpanic,
+			// (silent: so many other clients have had their StartTLS accepted and have not begun their handshakes yet)
+			[]int{0, 0, 0, 0, 18, 40}[rng.Intn(6)]), Kind: "starttls"})
 	}
 	return cs
 }
@@ -271,6 +273,22 @@ func (c13Stream) Impl(c Case) string {
 		mu.Unlock()
 	}
 	failLate = fail
+	var silent []net.Conn
+	for i := atoi(p["silent"]); i > 0 && p["stop"] != "1"; i-- {
+		sc, err := net.DialTimeout("tcp", sut.addr, 3*time.Second)
+		if err != nil {
+			continue
+		}
+		silent = append(silent, sc)
+		scl := &rawClient{c: sc}
+		_ = scl.send(opFrame("starttls", 100))
+		_, _ = scl.readFrame(5 * time.Second)
+	}
+	defer func() {
+		for _, sc := range silent {
+			sc.Close()
+		}
+	}()
 	var wg sync.WaitGroup
 	var stopOnce sync.Once
 	var allUp sync.WaitGroup
